@@ -129,3 +129,16 @@ add("C15", "fault_enumeration", [
      "shards": {"quick": 8, "thorough": 16}, "checks": {"quick": 200, "thorough": 5000},
      "timeout": {"quick": 600, "thorough": 3000}},
 ])
+
+add("C14", "exploration", [
+    {"name": "c14-schedule", "bin": "exec", "pkg": "./exec", "run": "^TestVerifC14Schedule$",
+     "shards": {"quick": 4, "thorough": 16}, "timeout": {"quick": 600, "thorough": 3000}},
+    {"name": "c14-exit", "bin": "exec", "pkg": "./exec", "run": "^TestVerifC14ExitPaths$",
+     "shards": {"quick": 8, "thorough": 16}, "timeout": {"quick": 900, "thorough": 3000}},
+    {"name": "c14-local", "bin": "exec", "pkg": "./exec", "run": "^TestVerifC14LocalLimiter$",
+     "shards": {"quick": 4, "thorough": 8}, "checks": {"quick": 40, "thorough": 1500},
+     "timeout": {"quick": 600, "thorough": 3000}},
+    {"name": "c14-live", "bin": "exec", "pkg": "./exec", "run": "^TestVerifC14LiveManager$",
+     "shards": {"quick": 8, "thorough": 16}, "checks": {"quick": 12, "thorough": 300},
+     "timeout": {"quick": 900, "thorough": 3000}},
+])
